@@ -136,6 +136,17 @@ pub fn run(run: &Run) {
             false
         }
     });
+    {
+        let mut all = mark_neighbour_strings(0);
+        all.extend(mark_neighbour_strings(2));
+        battery(run, "mark_neighbours", &all, &|s, l| match check(run, s, l) {
+            Ok(()) => true,
+            Err(v) => {
+                run.violate(v);
+                false
+            }
+        });
+    }
     collisions(run, "fingerprint_collisions", &|s, l| match check(run, s, l) {
         Ok(()) => true,
         Err(v) => {
